@@ -85,11 +85,24 @@ def count_runs(cmds):
 #   ["run", n]
 # A case is {"flags": 64|192, "ops": [...], "kind": ...}; every case ends with enough all-accepting iterations.
 # ----------------------------------------------------------------------------------------------
+def _bufsz():
+    """the library reads/inflates at most this many bytes per iteration (only used to size the drain)"""
+    try:
+        import translate
+        src = translate.strip_comments(translate.read_src("src/compression.c"))
+        return max(64, min(4096, translate.c_int(translate.find_define(src, "STROPHE_COMPRESSION_BUFFER_SIZE"))))
+    except Exception:
+        return 4096
+
+
+BUFSZ = _bufsz()
+
+
 def drain_runs(ops):
     ntok = sum(len(o[1]) for o in ops if o[0] == "tx")
     nrx = sum(1 for o in ops if o[0] == "rx")
     inb = sum(len(o[1]) // 2 for o in ops if o[0] == "rx")
-    return ntok + nrx + 2 * (inb // 4096) + 6
+    return ntok + nrx + 2 * (inb // BUFSZ) + 6
 
 
 def render_sim(case):
@@ -580,7 +593,7 @@ def negotiation_cases():
 def judge_negotiation(chk, flags, variant, line):
     case = {"negotiation": variant, "flags": flags}
     if line is None or line.startswith("CRASH") or "# " not in line:
-        chk.fail(case, "implementation: %s" % (line or "")[:200], extra={"scenario": ";".join(preamble(flags, variant))})
+        chk.fail(case, "implementation: %s" % (line or "")[:200], extra={"scenario": ";".join(preamble(flags, variant)), "class": "negotiation"})
         return
     hooks, trace = line.split("# ", 1)
     ht = hooks.split()
@@ -592,10 +605,10 @@ def judge_negotiation(chk, flags, variant, line):
     if asked != expect_ask:
         chk.fail(case, "<compress/> %s although compression is %s and the server %s it" %
                  ("sent" if asked else "not sent", "allowed" if flags & 64 else "not allowed",
-                  "offered" if variant in ("normal", "failure") else "did not offer"), extra={"scenario": ";".join(preamble(flags, variant))})
+                  "offered" if variant in ("normal", "failure") else "did not offer"), extra={"scenario": ";".join(preamble(flags, variant)), "class": "negotiation", "label": "negotiation-" + variant})
     if bool(layered) != expect_layer:
         chk.fail(case, "compression layer %s (flags=%d, server script '%s')" % ("installed" if layered else "not installed", flags, variant),
-                 extra={"scenario": ";".join(preamble(flags, variant))})
+                 extra={"scenario": ";".join(preamble(flags, variant)), "class": "negotiation", "label": "negotiation-" + variant})
     if layered:
         # the first thing through the layer is the new stream header, and nothing of the old stream is fed to the layer
         first_w = [t for t in ht if t[0] == "w"]
@@ -603,11 +616,11 @@ def judge_negotiation(chk, flags, variant, line):
                        'xmlns:stream="http://etherx.jabber.org/streams">'))
         if not first_w or not first_w[0].startswith("w%d=" % hdr_len):
             chk.fail(case, "the first write through the compression layer is not the restarted stream header: %s" % first_w[:1],
-                     extra={"scenario": ";".join(preamble(flags, variant))})
+                     extra={"scenario": ";".join(preamble(flags, variant)), "class": "negotiation", "label": "negotiation-" + variant})
         # plain text written before the layer: exactly up to <compress/>
         if wrote.count(b"<?xml") != 3:
             chk.fail(case, "expected three stream headers (initial, after SASL, after <compressed/>), saw %d" % wrote.count(b"<?xml"),
-                     extra={"scenario": ";".join(preamble(flags, variant))})
+                     extra={"scenario": ";".join(preamble(flags, variant)), "class": "negotiation", "label": "negotiation-" + variant})
     chk.count("negotiation-" + variant)
 
 
@@ -860,5 +873,22 @@ def replay(path):
     fl = int(cmds[1].split(" ")[1])
     case = {"flags": fl, "ops": ops}
     verdict = oracle(case, o)
+    agree = True
+    try:
+        try:
+            mexe = build_model()
+        except vlib.BuildError:
+            vlib.coq_property("C20")
+            mexe = build_model()
+        mr, ms = vlib.run_lines(mexe, [model_line_replay(case, o), model_line_stored(case)])
+        cleanup_private()
+        ir = " ".join(impl_tokens_for_replay(o))
+        agree = (mr == ir)
+        print("impl (w/n/p/E tokens)      : %s" % " ".join(t[:50] for t in ir.split())[:3000])
+        print("model on zlib's answers    : %s" % " ".join(t[:50] for t in (mr or "").split())[:3000])
+        print("model with the stored codec: %s" % " ".join(t[:50] for t in (ms or "").split())[:3000])
+        print("staging logic of model and implementation %s" % ("coincide" if agree else "DIFFER"))
+    except vlib.BuildError as e:
+        print("model unavailable: %s" % str(e)[:200])
     print("property: %s" % ("holds" if not verdict else "; ".join(verdict)))
-    return 0 if not verdict else 1
+    return 0 if not verdict and agree else 1
